@@ -17,11 +17,12 @@ binp = c.gobuild('c12')
 INVARIANTS = ['IntCodeIsSignFlip', 'OrderIso', 'RoundTrip', 'BufIsMarshal', 'RoundTripEntity', 'LeftInverse', 'Injective', 'SameEntitySameKey']
 
 
-def cfg(kind, widths='{3}', E=3, M=2, asw='FALSE', maxlen=1, maxsubj=1, maxvals=1, zig='{0}'):
+def cfg(kinds, widths='{3}', cwidths='{3}', E=3, M=2, asw='FALSE', maxlen=1, maxsubj=1, maxvals=1, zig='{0}'):
     return '''SPECIFICATION Spec
 CONSTANTS
-  Kind = "%s"
+  Kinds = {%s}
   Widths = %s
+  CompWidths = %s
   E = %d
   M = %d
   AsWritten = %s
@@ -32,7 +33,7 @@ CONSTANTS
   ZigCodes = %s
 INVARIANTS
 %s
-''' % (kind, widths, E, M, asw, maxlen, maxsubj, maxvals, zig, '\n'.join('  ' + i for i in INVARIANTS))
+''' % (', '.join('"%s"' % k for k in kinds.split('+')), widths, cwidths, E, M, asw, maxlen, maxsubj, maxvals, zig, '\n'.join('  ' + i for i in INVARIANTS))
 
 
 def write_cases(name, cases):
@@ -80,10 +81,7 @@ ZIG5 = '{0, 1, 92, 124, 31836}'      # 0, -1, 46 (zig-zag byte '\'), 62 (zig-zag
 ZIG3 = '{0, 92, 124}'
 if c.quick:
     exported = [   # (name, cfg): dumped, every state replayed on the real code
-        ('int', cfg('int', widths='{3, 4, 5, 6}')),
-        ('uint', cfg('uint', widths='{3, 4}')),
-        ('comp', cfg('comp', widths='{3}')),
-        ('float', cfg('float', E=3, M=2)),
+        ('numbers', cfg('int+uint+comp+float', widths='{3, 4, 5, 6}', cwidths='{3}', E=3, M=2)),
         ('entity-len2-vals2', cfg('entity', maxlen=2, maxsubj=1, maxvals=2, zig=ZIG5)),
         ('entity-len1-vals3', cfg('entity', maxlen=1, maxsubj=1, maxvals=3, zig=ZIG3)),
     ]
@@ -93,9 +91,7 @@ if c.quick:
 else:
     exported = [
         ('int', cfg('int', widths='{3, 4, 5, 6, 7, 8}')),
-        ('uint', cfg('uint', widths='{3, 4, 5, 6}')),
-        ('comp', cfg('comp', widths='{3, 4}')),
-        ('float-1-3-2', cfg('float', E=3, M=2)),
+        ('uint+comp+float-1-3-2', cfg('uint+comp+float', widths='{3, 4, 5, 6}', cwidths='{3, 4}', E=3, M=2)),
         ('float-1-4-3', cfg('float', E=4, M=3)),
         ('entity-len2-vals2', cfg('entity', maxlen=2, maxsubj=1, maxvals=2, zig=ZIG5)),
         ('entity-len1-vals3', cfg('entity', maxlen=1, maxsubj=1, maxvals=3, zig=ZIG3)),
@@ -113,11 +109,11 @@ def run_exported(item):
     name, text = item
     small = not name.startswith('entity')
     r = tlc.run('KeyCodec.tla', 'mc.cfg', tag='c12-' + name, files={'mc.cfg': text}, dump=True, coverage=not c.quick,
-                workers=2 if small else 6, timeout=1500)
+                workers=4 if small else 6, timeout=1500)
     cases = []
     if r.ok:
         nodes, edges, inits = tlc.graph(r)
-        cases = [nodes[k] for k in sorted(nodes, key=lambda x: (len(x), x))]
+        cases = sorted(nodes.values(), key=lambda st: json.dumps(st, sort_keys=True))   # node ids are run-dependent fingerprints
     tlc.cleanup(r)
     return name, r, cases
 
@@ -129,7 +125,7 @@ def run_checked(item):
 
 t0 = time.time()
 with ThreadPoolExecutor(max_workers=4) as ex:
-    futs = [ex.submit(run_exported, it) for it in exported] + [ex.submit(run_checked, it) for it in checked_only]
+    futs = [ex.submit(run_checked, it) for it in checked_only] + [ex.submit(run_exported, it) for it in exported]   # the largest first
     # the float encoder exactly as written at the pinned commit must be rejected by TLC: the invariants discriminate
     neg = ex.submit(tlc.run, 'KeyCodec.tla', 'mc.cfg', tag='c12-aswritten', files={'mc.cfg': cfg('float', E=3, M=2, asw='TRUE')}, workers=2, timeout=600)
     results = [f.result() for f in futs]
